@@ -1,15 +1,18 @@
 ---------------------------- MODULE MC_SerialText ----------------------------
 (* Two signature times given as text (inception / expiration of an RRSIG,  *)
 (* date form or integer form), anywhere in ERAS eras: what the field holds, *)
-(* how the two fields compare, and the S->I case generator.                 *)
+(* how the two fields compare, and the S->I case generator.  The same two   *)
+(* times as *instants* handed to the library (a clock value converted into  *)
+(* a serial: From<jiff::Timestamp> for Serial) also range over PRE eras     *)
+(* before the epoch; the text forms are confined to t >= 0.                 *)
 EXTENDS Serial, Sequences, TLC, Json
 
-CONSTANT ERAS
+CONSTANT ERAS, PRE
 
 VARIABLES t1, t2
 xvars == <<t1, t2>>
 
-Times == 0 .. ERAS * M - 1
+Times == -(PRE * M) .. ERAS * M - 1
 Init == t1 \in Times /\ t2 \in Times
 
 \* a second passes for one of the two, or for both
@@ -23,15 +26,37 @@ GenSpec == Init /\ [][UNCHANGED xvars]_xvars
 IOrder == LawDenoteOrder(t1, t2)
 IPlace == LawDenotePlace(t1, t2)
 IAdd   == LawDenoteAdd(t1, t2)
-IText  == LawTextRoundTrip(t1)
+IText  == TextFormConstrained(t1) => LawTextRoundTrip(t1)
+\* the conversion of an instant computes the instant modulo 2^BITS, before
+\* the epoch too, so that the later of two instants less than half a cycle
+\* apart is the greater serial and is reached by the serial's addition
+IInstant == /\ LawInstantImpl(t1)
+            /\ (t2 - t1 \in Addend) =>
+                  ImplAdd(ImplOfInstant(t1), t2 - t1) = [ok |-> ImplOfInstant(t2)]
+\* vacuity (evaluated in one state): instants before the epoch, on both sides
+\* of it and in a later era are in the explored space
+IVacuity == (t1 = 0 /\ t2 = 0) =>
+              /\ \E u \in Times : u < 0 /\ u + H - 1 >= 0
+              /\ \E u \in Times : u < -M
+              /\ \E u \in Times : u >= 2 * M
 \* time passing for both leaves the comparison of the fields unchanged; a tick
 \* of one field is the field's addition of 1
 PBoth == [][(t1' = t1 + 1 /\ t2' = t2 + 1)
               => Cmp(Denote(t1'), Denote(t2')) = Cmp(Denote(t1), Denote(t2))]_xvars
 POne  == [][(t1' = t1 + 1) => Denote(t1') = Add(Denote(t1), 1)]_xvars
 
-EmitText == PrintT("CASE " \o ToJson(
+EmitText == (TextFormConstrained(t1) /\ TextFormConstrained(t2)) =>
+  PrintT("CASE " \o ToJson(
    [in  |-> [kind |-> "text", k |-> BITS, t1 |-> t1, t2 |-> t2],
     exp |-> [v1 |-> Denote(t1), v2 |-> Denote(t2),
              cmp |-> Cmp(Denote(t1), Denote(t2)), written |-> TRUE]]))
+
+\* two instants converted into serials: the values, their comparison, and --
+\* when t2 is 0 .. 2^(BITS-1)-1 seconds after t1 -- the first serial advanced
+\* by the elapsed seconds (Serial::add), which must be the second serial
+EmitInstant == PrintT("CASE " \o ToJson(
+   [in  |-> [kind |-> "instant", k |-> BITS, t1 |-> t1, t2 |-> t2],
+    exp |-> [v1 |-> Denote(t1), v2 |-> Denote(t2),
+             cmp |-> Cmp(Denote(t1), Denote(t2)),
+             adv |-> IF t2 - t1 \in Addend THEN [ok |-> Denote(t2)] ELSE [na |-> TRUE]]]))
 =============================================================================
